@@ -19,6 +19,7 @@ fn once(case: &Value, run: &Run) -> Acc {
         "ref-slot" => crate::checks::refs::replay_slot(case, run),
         "ref" | "ref-history" | "ref-seq" => crate::checks::refs::replay(case, run),
         "spelling" => crate::checks::spellings::replay(case, run),
+        "spelling-after-rejections" => crate::checks::spellings::replay_after_rejections(case, run),
         "spelling-sequence" => crate::checks::spellings::replay_sequence(case, run),
         "views" => crate::checks::views::replay(case, run),
         "schedule" => crate::checks::purity::replay_schedule(case, run),
